@@ -74,6 +74,26 @@ impl FaultScenario {
         Ok((start, n))
     }
 
+    /// per flush operation of the fault-free run: the ids of the write requests it issued (its
+    /// write-back batches), for "the whole batch fails together" plans
+    pub fn flush_write_ids(&self, hist: &[Op]) -> Vec<Vec<usize>> {
+        let mut out = vec![];
+        if let Ok(mut w) = World::new(self.img.files.clone(), self.img.rd.clone(), &self.cfg, &self.cfg) {
+            for op in hist {
+                let before = w.sim.borrow().reqs.len();
+                let _ = w.step(op);
+                if matches!(op, Op::Flush | Op::Shrink) {
+                    let s = w.sim.borrow();
+                    let ids: Vec<usize> = s.reqs[before..].iter().filter(|r| matches!(r.kind, Kind::Write { .. })).map(|r| r.id).collect();
+                    if ids.len() >= 2 {
+                        out.push(ids);
+                    }
+                }
+            }
+        }
+        out
+    }
+
     pub fn run(&self, hist: &[Op], plan: &Plan, st: &mut FaultStats) -> Vec<Violation> {
         let mut out = vec![];
         st.runs += 1;
@@ -287,6 +307,13 @@ impl FaultScenario {
                             plan,
                         );
                         v.prop = "C02".into();
+                        // the same observation under C18 when the flag is clear at this quiescent point
+                        if w.dev.as_ref().map_or(false, |d| !d.need_flush_meta()) {
+                            let mut v18 = v.clone();
+                            v18.prop = "C18".into();
+                            v18.class = format!("flag-clear-{}", v18.class);
+                            out.push(v18);
+                        }
                         out.push(v);
                     }
                 }
